@@ -2036,7 +2036,7 @@ func ruleProtectedFieldKeepsStamps(r *Run) {
 
 func init() {
 	reg := func(id, prop string) {
-		register(ruleDef{ID: id, Prop: prop, Tier: "quick", Floor: 3,
+		register(ruleDef{ID: id, Prop: prop, Tier: "quick", Floor: 2,
 			Title: "removal by swap-with-last walks the recorded positions downwards: in every data-type loop that stores s[len(s)-1] into s[d] and re-slices s to len(s)-1, where d is read from a slice of recorded positions, the counter that indexes the recorded positions is decremented on the back edge",
 			Fn:    ruleSwapRemoveDescending})
 	}
@@ -2110,7 +2110,8 @@ func ruleSwapRemoveDescending(r *Run) {
 			}
 		}
 	}
-	r.check(n >= 3, "datatypes:swap-remove-loops", fmt.Sprintf("%d swap-with-last removal loops over recorded positions", n), "fewer than the three confirmed by reading: rule needs review", "-")
+	// three on today's tree (annotation); one shared helper would serve all three
+	r.check(n >= 1, "datatypes:swap-remove-loops", fmt.Sprintf("%d swap-with-last removal loops over recorded positions", n), "none found: rule needs review", "-")
 }
 
 // ---------------------------------------------------------------------------------------------
